@@ -94,6 +94,8 @@ pub trait Subject: Sync {
     fn parse_and_rewrite(&self, d: &[u8]) -> R<(Vec<u8>, usize, Vec<u8>)>;
     fn estimate(&self, d: &[u8]) -> R<Vec<u32>>;
     fn roundtrip_with_params(&self, d: &[u8], v: &[u32]) -> R<(Vec<u8>, usize, usize, Vec<u32>)>;
+    /// (plaintext, corrections, consumed) coded under the given parameter vector
+    fn corrections_with_params(&self, d: &[u8], v: &[u32]) -> R<(Vec<u8>, Vec<u8>, usize)>;
     fn cabac_roundtrip(&self, ops: &[Op]) -> (usize, Vec<Op>);
     fn format_versions(&self) -> (u8, u16);
     /// # Safety: raw C ABI call
